@@ -216,6 +216,17 @@ func (in *c09Inst) unitHour() uint32 {
 	return in.s.curr.id
 }
 
+// c09StopLoop makes the hourly loop of a (closed) module exit at its next
+// wake-up through the product's own stop condition (flush returns cont=false
+// when there is no current unit).  A bubble cannot be left while a goroutine
+// of it lives, and after Close the unchanged loop would spin without sleeping
+// as soon as the hour changes, which would freeze the virtual clock.
+func c09StopLoop(in *c09Inst) {
+	in.s.currMu.Lock()
+	in.s.curr = nil
+	in.s.currMu.Unlock()
+}
+
 // c09ScratchDir returns a fresh directory for database files.
 func c09ScratchDir(tag string) (string, error) {
 	base := os.Getenv("VERIF_SCRATCH")
